@@ -48,6 +48,9 @@ def gen_block(rng, feats=FEATS):
         b += rng.choice("cdefgab") + " "
     elif k < 0.65:
         b += rng.choice(["`", '"']) + " "
+    elif k < 0.80:
+        # a tied group left pending at the end of the block (flushed when the track's next note comes or at the end)
+        b += rng.choice(["c& ", "d&e& ", "Slur(2) g& ", "a8&"]) + " "
     return b
 
 
@@ -189,7 +192,7 @@ def check_sync(ctx, progs, origin):
 def check_play(ctx, cases, origin):
     srcs = []
     for c in cases:
-        srcs.append("TR(%d) %s%s" % (c["t"], c["pre"], MARK))
+        srcs.append(c.get("ahead", "") + "TR(%d) %s%s" % (c["t"], c["pre"], MARK))
     got0, _, decs0 = compile_all(ctx, srcs)
     todo, srcs2 = [], []
     for c, s, g, d in zip(cases, srcs, got0, decs0):
@@ -202,9 +205,9 @@ def check_play(ctx, cases, origin):
         c["S"] = ms[0]
         n = len(c["parts"])
         top = max(n, c["t"])
-        play = "TR(%d) %sPLAY(%s)%s" % (c["t"], c["pre"], ",".join("{" + p + "}" for p in c["parts"]), MARK) + \
+        play = c.get("ahead", "") + "TR(%d) %sPLAY(%s)%s" % (c["t"], c["pre"], ",".join("{" + p + "}" for p in c["parts"]), MARK) + \
                "".join("TR(%d)%s" % (i, MARK) for i in range(top + 1) if i != c["t"])
-        ref = "TR(%d) %s" % (c["t"], c["pre"]) + "".join("TR(%d) TIME(%d) %s%s" % (i + 1, c["S"], p, MARK) for i, p in enumerate(c["parts"]))
+        ref = c.get("ahead", "") + "TR(%d) %s" % (c["t"], c["pre"]) + "".join("TR(%d) TIME(%d) %s%s" % (i + 1, c["S"], p, MARK) for i, p in enumerate(c["parts"]))
         todo.append(c)
         srcs2 += [play, ref]
     got, bodies, decs = compile_all(ctx, srcs2)
@@ -255,7 +258,13 @@ def gen_play(rng):
     t = rng.choice([0, 0, 1, 3])
     pre = mmlgen.block(rng, 1, rng.randrange(0, 4), PART_FEATS) + " " if rng.random() < 0.7 else ""
     parts = [mmlgen.block(rng, 1, rng.randrange(1, 7), PART_FEATS).strip() + " " for _ in range(rng.randrange(1, 5))]
-    return {"t": t, "pre": pre, "parts": parts}
+    c = {"t": t, "pre": pre, "parts": parts}
+    if rng.random() < 0.4:
+        # something was written to some of the part tracks before: they stand ahead of (or behind) the calling track,
+        # and every part still starts at the caller's position
+        ks = [k for k in range(1, len(parts) + 1) if k != t and rng.random() < 0.6]
+        c["ahead"] = "".join("TR(%d) %s " % (k, mmlgen.block(rng, 1, rng.randrange(1, 6), PART_FEATS).strip()) for k in ks)
+    return c
 
 
 # ---- corpus: sources with the notes the property text prescribes ----
